@@ -60,6 +60,18 @@ fn get_file_or_stdin(path: &str) -> anyhow::Result<Box<dyn Read>> {
     Ok(result)
 }
 
+// A span that ends on a later line than it starts on has column_end <= column_start.  Only the first
+// line is shown, so underline up to its end (the snippet renderer panics on an inverted range).
+fn underline_range(span: &HumanSpan, line: &str) -> (usize, usize) {
+    let start = span.column_start_machine();
+    let end = span.column_end_machine();
+    if end <= start {
+        (start, line.len().max(start + 1))
+    } else {
+        (start, end)
+    }
+}
+
 struct ErrMsg {
     err: chic::Error,
 }
@@ -72,14 +84,10 @@ impl ErrMsg {
     }
 
     fn error(self, span: &HumanSpan, source: &str, what: &str) -> Self {
+        let line = source.lines().nth(span.line_machine()).unwrap_or("");
+        let (start, end) = underline_range(span, line);
         Self {
-            err: self.err.error(
-                span.line,
-                span.column_start_machine(),
-                span.column_end_machine(),
-                source.lines().nth(span.line_machine()).unwrap(),
-                what,
-            ),
+            err: self.err.error(span.line, start, end, line, what),
         }
     }
 
@@ -112,14 +120,10 @@ impl WarnMsg {
     }
 
     fn warning(self, span: &HumanSpan, source: &str, what: &str) -> Self {
+        let line = source.lines().nth(span.line_machine()).unwrap_or("");
+        let (start, end) = underline_range(span, line);
         Self {
-            warning: self.warning.warning(
-                span.line,
-                span.column_start_machine(),
-                span.column_end_machine(),
-                source.lines().nth(span.line_machine()).unwrap(),
-                what,
-            ),
+            warning: self.warning.warning(span.line, start, end, line, what),
         }
     }
 
